@@ -19,11 +19,12 @@ Definition eval_atom (nu : valuation) (a : atom) : fact :=
   let '(s, p, o) := a in (eval nu s, eval nu p, eval nu o).
 
 (* evaluate_filters on a ground rule instance (every variable has a value): a numeric value compares the
-   numeric value of the constant; a variable value compares identifiers, = and != only *)
+   numeric value of the constant; a variable value compares identifiers for = and !=, numeric values for the
+   four order operators *)
 Definition filter_holds (num : N -> Z) (nu : valuation) (f : fcond) : bool :=
   match fval f with
   | FNum z => cmp_num (fop f) (num (nu (fvar f))) z
-  | FVar y => cmp_id (fop f) (nu (fvar f)) (nu y)
+  | FVar y => cmp_var num (fop f) (nu (fvar f)) (nu y)
   end.
 
 Inductive derivable (num : N -> Z) (F : list fact) (R : list rule) : nat -> fact -> Prop :=
